@@ -2051,7 +2051,12 @@ func (d *DFA) SearchReverseLimited(cache *DFACache, haystack []byte, start, end,
 		lastMatch = lowerBound
 	}
 
-	if lowerBound > start && lastMatch < 0 {
+	// The scan was cut at minStart while the DFA was still alive: a match seen so far
+	// may extend further left (`[a-z]+aa` on "\naazaa" after the candidate at 1 failed:
+	// the match through the second candidate starts at 1, before minStart = 3), so the
+	// result is not the leftmost start. Signal the caller to fall back, with or without
+	// a match (Rust: RetryError::Quadratic as soon as min_start is reached).
+	if lowerBound > start {
 		return SearchReverseLimitedQuadratic
 	}
 
